@@ -17,8 +17,18 @@ Oracle: the multiset of ORM rows (entity -> (class name, pk) or None; scalars as
 equals the multiset of reference rows; ``count()`` over the statement and ``exists()``
 agree with the number of rows returned.
 
-Guards: no ORDER BY / LIMIT is generated (row order is left open by SQL; slicing is
-C18's subject), rows are compared as multisets; GROUP BY is always on the primary key of
+Join chains have 0-3 links, each inner / LEFT OUTER / FULL OUTER; a statement may have a
+second, independent FROM root (present through the select list only) with joins hanging
+off it; of the occurrences of one class at most one - any one - is un-aliased.  LIMIT /
+OFFSET / Query.slice() are generated *without* ORDER BY: the rows returned must then be
+rows of the unsliced reference result and exactly as many as LIMIT/OFFSET leave, and
+count() / exists() / first() / one_or_none() must agree with that number (including
+LIMIT 0 and an OFFSET past the end).
+
+Guards: no ORDER BY is generated (row order is left open by SQL), rows are compared as
+multisets; legacy ``Query.first()`` is not judged under LIMIT 0 (it applies its own
+LIMIT 1, as documented); FULL OUTER JOIN is not generated through an association table,
+with of_type, or together with a second FROM root; GROUP BY is always on the primary key of
 the grouped entity; aggregates are COUNT / SUM / MIN / MAX over integer columns (no
 float formatting); ``contains()`` / object comparison use persistent objects fetched in
 the same session; ``many_to_one != obj`` is read with the object semantics the comparator
@@ -48,6 +58,7 @@ META = {
     "soft_s": {"quick": 45, "thorough": 600},
     "exhaustive": {"quick": False, "thorough": False},
     "require": ["queries_compared", "rows_compared", "count_checks", "exists_checks", "nonempty_results",
+                "first_checks", "one_or_none_checks", "sliced_queries", "slice_empties_result", "full_join_queries",
                 "queries_with_relationship_predicate", "queries_with_outer_join"],
     "assumptions": ["SqlTx (reference translator) encodes the relational meaning of each description construct",
                     "sqlite3 evaluates the reference SQL correctly"],
@@ -179,7 +190,15 @@ def gen_desc(zoo, rng, pop):
     d = {"ents": ents, "root_src": None, "where": None, "select": None, "agg": None, "scalar_subq": None,
          "distinct": False, "api": rng.choice(["select", "select", "query"]), "select_from_last": False,
          "with_parent": None}
-    for _ in range(rng.choice([0, 1, 1, 2])):
+    have_cross = False
+    for _ in range(rng.choice([0, 1, 1, 2, 2, 3])):
+        if not have_cross and rng.random() < 0.12:
+            # a second, independent FROM root (cartesian with the first chain); later
+            # joins may hang off it
+            have_cross = True
+            ents.append({"cls": rng.choice(["A", "A", "B", "C", "T", "P", "E"]), "via": None, "cross": True,
+                         "alias": rng.random() < 0.3})
+            continue
         src = rng.randrange(len(ents))
         sc = ents[src]["cls"]
         rel = rng.choice(zoo.relnames(fam(sc)))
@@ -187,15 +206,26 @@ def gen_desc(zoo, rng, pop):
         tcls = ri.target
         if tcls == "E" and rng.random() < 0.4:
             tcls = rng.choice(["Eng", "Mgr"])   # of_type
-        ents.append({"cls": tcls, "via": [src, rel], "outer": rng.random() < 0.4,
-                     "alias": rng.random() < 0.3, "of_type": tcls != ri.target})
-    # classes that repeat must be aliased (all but possibly the first occurrence)
-    seen = set()
-    for en in ents:
-        f = fam(en["cls"])
-        if f in seen:
-            en["alias"] = True
-        seen.add(f)
+        en = {"cls": tcls, "via": [src, rel], "outer": rng.random() < 0.4,
+              "alias": rng.random() < 0.3, "of_type": tcls != ri.target}
+        # FULL OUTER JOIN on any position of the chain (not through an association table
+        # and not narrowed by of_type: what a full join means there is left open)
+        if ri.direction != "m2m" and tcls == ri.target and rng.random() < 0.2:
+            en["full"] = True
+        ents.append(en)
+    if have_cross:
+        for en in ents:
+            en.pop("full", None)   # (comma-separated FROM + FULL JOIN: grouping would matter)
+    # of the occurrences of one class (family) at most one may stay un-aliased - any one
+    by_fam = {}
+    for i, en in enumerate(ents):
+        by_fam.setdefault(fam(en["cls"]), []).append(i)
+    for f, idxs in by_fam.items():
+        if len(idxs) > 1:
+            keep = rng.choice(idxs)
+            for i in idxs:
+                if i != keep:
+                    ents[i]["alias"] = True
     if fam(root) != "E" and rng.random() < 0.2:
         kind = rng.choice(["subq", "union", "union_all"])
         one = [{"cls": root}]
@@ -206,8 +236,9 @@ def gen_desc(zoo, rng, pop):
         d["where"] = gen_pred(zoo, rng, ents, pop)
     # select list
     r = rng.random()
-    if len(ents) > 1 and r < 0.25:
-        # aggregate: group by one entity, aggregate over another
+    if len(ents) > 1 and r < 0.25 and not have_cross:
+        # aggregate: group by one entity, aggregate over another (not with a second FROM
+        # root: its bare columns would be arbitrary per group)
         g = rng.randrange(len(ents))
         others = [i for i in range(len(ents)) if i != g]
         funcs = []
@@ -249,6 +280,17 @@ def gen_desc(zoo, rng, pop):
                                     "col": rng.choice(ic) if ic else "id"}
                 if d["scalar_subq"]["func"] == "count":
                     d["scalar_subq"]["col"] = "id"
+    # a second FROM root is only in the FROM list because something of it is selected
+    for i, en in enumerate(ents):
+        if en.get("cross") and not any(it[0] in ("ent", "col") and it[1] == i for it in d["select"]):
+            d["select"].append(["ent", i])
+    # LIMIT / OFFSET (no ORDER BY: which rows come back is open, how many is not)
+    d["slice"] = None
+    if rng.random() < 0.3:
+        lim = rng.choice([None, 0, 1, 2, 5])
+        off = rng.choice([None, 0, 1, 3, 50])
+        if lim is not None or off is not None:
+            d["slice"] = {"limit": lim, "offset": off, "use_slice": rng.random() < 0.4}
     d["sec_join"] = None
     if root in ("A", "T") and not ents[0].get("alias") and not d["root_src"] and rng.random() < 0.3:
         # the user joins the association table itself (un-aliased) into the statement and
@@ -275,7 +317,19 @@ def gen_desc(zoo, rng, pop):
 
 def features(d, zoo):
     f = set()
-    for en in d["ents"][1:]:
+    for j, en in enumerate(d["ents"][1:], 1):
+        if en.get("cross"):
+            f.add("cross-root")
+            if fam(en["cls"]) == "E" and zoo.e_kind == "joined" and zoo.knobs.get("e_with_poly") == "*":
+                f.add("wp-cross-root")
+            other_alias = any(fam(e2["cls"]) == fam(en["cls"]) and e2.get("alias") and k != j
+                              for k, e2 in enumerate(d["ents"]))
+            hangs = any(e2.get("via") and e2["via"][0] == j for e2 in d["ents"])
+            if not en.get("alias") and other_alias and hangs:
+                f.add("plain-entity-join-after-aliased-same-class")
+            continue
+        if en.get("full"):
+            f.add("full-join-pos%d" % min(sum(1 for e2 in d["ents"][1:j + 1] if e2.get("via")), 3))
         ri = zoo.rel(fam(d["ents"][en["via"][0]]["cls"]), en["via"][1])
         f.add("outerjoin" if en["outer"] else "join")
         f.add("join-" + ri.direction)
@@ -283,6 +337,8 @@ def features(d, zoo):
             f.add("of_type")
         if fam(en["cls"]) == fam(d["ents"][en["via"][0]]["cls"]):
             f.add("self-join")
+    if d.get("slice"):
+        f.add("slice")
     if any(en.get("alias") for en in d["ents"]):
         f.add("aliased")
     if fam(d["ents"][0]["cls"]) == "E":
@@ -321,12 +377,32 @@ def features(d, zoo):
     return f
 
 
-PRIORITY = ["secondary-in-from", "kwargs-3", "kwargs-2", "kwargs-1", "empty", "nonempty", "root-union", "root-union_all", "root-subq", "group_by", "scalar_subq", "with_parent", "of_type",
+PRIORITY = ["plain-entity-join-after-aliased-same-class", "slice", "full-join-pos3", "full-join-pos2",
+            "full-join-pos1", "cross-root", "secondary-in-from", "kwargs-3", "kwargs-2", "kwargs-1", "empty", "nonempty", "root-union", "root-union_all", "root-subq", "group_by", "scalar_subq", "with_parent", "of_type",
             "self-join", "outerjoin", "join-m2m", "in_subq", "exists", "contains", "eq_obj", "ne_obj", "any",
             "has", "select_from", "distinct", "poly-root", "aliased", "join"]
 
 
+# Result.first() / one_or_none() / one() of a single-entity ORM select read the raw scalar
+# row: a row whose entity is None (outer-join miss) is taken for "no more rows"
+NULL_ROW_MECH = "result-first-one-treat-null-entity-row-as-no-row"
+
+
 def mechanism_of(kind, feats):
+    if "wp-cross-root" in feats:
+        # a second entity mapped with_polymorphic="*" (joined inheritance) loses its
+        # polymorphic join as soon as the statement has any explicit FROM / join:
+        # FROM ..., e, eng, mgr  (cartesian product)
+        return "with-polymorphic-entity-loses-join-with-explicit-froms"
+    if "cross-root" in feats and "api-query" in feats and kind.startswith("exists-differs"):
+        # Query.exists() keeps only the explicit FROM chain; a FROM root that is present
+        # through the columns clause alone is dropped from the EXISTS subquery
+        return "legacy-exists-drops-column-only-from-root"
+    if "plain-entity-join-after-aliased-same-class" in feats and not kind.startswith(("count-raises", "exists-raises")):
+        # a join whose explicit left side is the plain entity A is spliced onto the join of
+        # aliased(A) elsewhere in the FROM list (ON clause adapted to the alias, A left as
+        # a cartesian FROM): one defect, whatever the symptom
+        return "explicit-left-join-spliced-onto-aliased-same-class"
     for p in PRIORITY:
         if p in feats:
             return f"{kind}:{p}"
@@ -470,10 +546,16 @@ class SqlTx:
             sec_alias = "xs"
             frm += f" JOIN {sec} AS xs ON xs.{lc} = t0.id"
         for j, en in enumerate(ents[1:], 1):
+            if en.get("cross"):
+                item, extra = self.table_expr(en["cls"], aliases[j])
+                frm += f", {item}"
+                if extra:
+                    where.append(extra)
+                continue
             i, rel = en["via"]
             ri = zoo.rel(fam(ents[i]["cls"]), rel)
             item, extra = self.table_expr(en["cls"], aliases[j])
-            kw = "LEFT OUTER JOIN" if en["outer"] else "JOIN"
+            kw = "FULL OUTER JOIN" if en.get("full") else ("LEFT OUTER JOIN" if en["outer"] else "JOIN")
             if ri.direction == "m2m":
                 sec, lc, rc = ri.secondary
                 x = f"x{j}"
@@ -683,10 +765,13 @@ class OrmTx:
             lc = zoo.rel(ents[0]["cls"], rel).secondary[1]
             stmt = stmt.join(sec_t, sec_t.c[lc] == oents[0].id)
         for j, en in enumerate(ents[1:], 1):
+            if en.get("cross"):
+                continue   # in the FROM list through the select list only
             i, rel = en["via"]
             attr = getattr(oents[i], rel)
             target = attr.of_type(oents[j]) if (en.get("alias") or en.get("of_type")) else attr
-            stmt = stmt.join(target, isouter=en["outer"])
+            kwj = {"full": True} if en.get("full") else {}
+            stmt = stmt.join(target, isouter=en["outer"], **kwj)
         crit = []
         if d["with_parent"]:
             wp = d["with_parent"]
@@ -704,6 +789,15 @@ class OrmTx:
                 stmt = stmt.having(aggs[k] > v if op == "gt" else aggs[k] <= v)
         if d["distinct"]:
             stmt = stmt.distinct()
+        sl = d.get("slice")
+        if sl:
+            if legacy and sl["use_slice"] and sl["limit"] is not None and sl["offset"] is not None:
+                stmt = stmt.slice(sl["offset"], sl["offset"] + sl["limit"])
+            else:
+                if sl["limit"] is not None:
+                    stmt = stmt.limit(sl["limit"])
+                if sl["offset"] is not None:
+                    stmt = stmt.offset(sl["offset"])
         return stmt
 
 
@@ -794,6 +888,13 @@ def one_query(ctx, sa, orm, R, zoo, engine, raw, d, origin):
                 got = [tuple(r) for r in s.execute(stmt)]
         except Exception as e:
             ctx.case(d, nontrivial=False)
+            if (isinstance(e, sa.exc.OperationalError) and "no such column" in str(e) and "cross-root" in feats
+                    and any(ri.lazy == "subquery" for ri in zoo.rels.values())):
+                # mapper-level subquery eager loading re-embeds the statement; with an explicit
+                # select_from() the second FROM root (present through the columns only) is lost
+                ctx.violation("subqueryload-embedded-query-loses-second-from-root:OperationalError",
+                              f"{str(e)[:300]}", dict(witness, error=str(e)[:800]))
+                return
             ctx.violation(mechanism_of(f"orm-raises-{type(e).__name__}", feats),
                           f"ORM statement raised {type(e).__name__}: {str(e)[:200]}; reference SQL ran: {sql[:300]}",
                           dict(witness, error=str(e)[:500]))
@@ -807,24 +908,52 @@ def one_query(ctx, sa, orm, R, zoo, engine, raw, d, origin):
             ctx.count("queries_with_relationship_predicate")
         if "outerjoin" in feats:
             ctx.count("queries_with_outer_join")
+        if any(f.startswith("full-join") for f in feats):
+            ctx.count("full_join_queries")
+        if "cross-root" in feats:
+            ctx.count("cross_root_queries")
         if ref:
             ctx.count("nonempty_results")
         nontrivial = bool(ref) and (len(d["ents"]) > 1 or "relpred" in feats or d["root_src"] is not None
                                     or d["scalar_subq"] is not None)
         ctx.case(d, nontrivial=nontrivial)
-        if legacy and any(it[0] == "ent" for it in d["select"]):
+        sl = d.get("slice")
+        if sl:
+            off = sl["offset"] or 0
+            expected_n = max(0, len(ref) - off)
+            if sl["limit"] is not None:
+                expected_n = min(expected_n, sl["limit"])
+            ctx.count("sliced_queries")
+            if expected_n == 0 and ref:
+                ctx.count("slice_empties_result")
+        else:
+            expected_n = len(ref)
+        dedup = legacy and any(it[0] == "ent" for it in d["select"])
+        cg, cr = Counter(map(ckey, got)), Counter(map(ckey, ref))
+        if sl:
+            # no ORDER BY: which rows come back is open; they must be rows of the unsliced
+            # result and as many as LIMIT/OFFSET leave
+            if dedup:
+                same = (set(cg) <= set(cr) and len(got) == len(cg) and len(got) <= expected_n
+                        and (len(got) > 0) == (expected_n > 0))
+                ctx.count("legacy_dedup_compared")
+            else:
+                same = not (cg - cr) and len(got) == expected_n
+                ctx.count("multiset_compared")
+        elif dedup:
             # legacy Query de-duplicates rows that contain mapped entities (documented
             # legacy behaviour): compare as sets, and require the ORM rows to be unique
-            same = set(map(ckey, got)) == set(map(ckey, ref)) and len(got) == len(set(map(ckey, got)))
+            same = set(cg) == set(cr) and len(got) == len(cg)
             ctx.count("legacy_dedup_compared")
         else:
-            same = Counter(map(ckey, got)) == Counter(map(ckey, ref))
+            same = cg == cr
             ctx.count("multiset_compared")
         if not same:
             extra = sorted((Counter(map(ckey, got)) - Counter(map(ckey, ref))).elements())[:5]
             missing = sorted((Counter(map(ckey, ref)) - Counter(map(ckey, got))).elements())[:5]
             ctx.violation(mechanism_of("rows-differ", feats),
-                          f"ORM returned {len(got)} rows, reference {len(ref)}; extra={extra} missing={missing}; "
+                          f"ORM returned {len(got)} rows, reference {len(ref)} (expected after slice {expected_n}); "
+                          f"extra={extra} missing={missing if not sl else '-'}; "
                           f"reference SQL: {sql[:300]}",
                           dict(witness, orm_sql=str(stmt if not legacy else stmt.statement), got=got[:30], expected=ref[:30]))
             return
@@ -855,16 +984,55 @@ def one_query(ctx, sa, orm, R, zoo, engine, raw, d, origin):
             ctx.violation(mech, f"exists() raised {type(e).__name__}: {str(e)[:200]} for a query that returns "
                                 f"{len(ref)} rows; reference SQL: {sql[:300]}", dict(witness, error=str(e)[:500]))
             return
-        n_for_count = len(ref)
+        n_for_count = expected_n
         ctx.count("count_checks")
         ctx.count("exists_checks")
         if cnt != n_for_count:
             ctx.violation(mechanism_of("count-differs", feats),
                           f"count()={cnt} but the query returns {n_for_count} rows; reference SQL: {sql[:300]}",
                           dict(witness, count=cnt))
-        if bool(ex) != bool(ref):
+        if bool(ex) != (expected_n > 0):
             ctx.violation(mechanism_of("exists-differs", feats),
-                          f"exists()={ex} but the query returns {len(ref)} rows", dict(witness, exists=ex))
+                          f"exists()={ex} but the query returns {expected_n} rows ({len(ref)} before LIMIT/OFFSET)",
+                          dict(witness, exists=ex))
+        # first() / one_or_none() agree with the rows.  Legacy Query returning a single
+        # entity yields the bare entity, which is None for an outer-joined miss: "no row"
+        # and "a row holding None" cannot be told apart there
+        single_ent = (len(d["select"]) == 1 and d["select"][0][0] == "ent" and not d["agg"] and not d["scalar_subq"]
+                      and not (d.get("sec_join") and d["sec_join"]["select_col"]))
+        scalar_none = legacy and single_ent and any(r[0] is None for r in ref)
+        null_entity_rows = (not legacy) and single_ent and any(r[0] is None for r in ref)
+        try:
+            if scalar_none:
+                raise StopIteration
+            if legacy:
+                # Query.first() applies its own LIMIT 1, replacing a LIMIT 0 (documented:
+                # "applies a limit of one"): not judged for LIMIT 0
+                fr = "skip" if (sl and sl["limit"] == 0) else stmt.first()
+            else:
+                fr = s.execute(stmt).first()
+            if fr != "skip":
+                ctx.count("first_checks")
+                if (fr is None) != (expected_n == 0):
+                    ctx.violation(NULL_ROW_MECH if null_entity_rows else mechanism_of("first-differs", feats),
+                                  f"first() is {'None' if fr is None else 'a row'} but the query returns {expected_n} rows",
+                                  witness)
+            if expected_n <= 1 or not dedup:
+                try:
+                    one = stmt.one_or_none() if legacy else s.execute(stmt).one_or_none()
+                    multiple = False
+                except sa.exc.MultipleResultsFound:
+                    one, multiple = None, True
+                ctx.count("one_or_none_checks")
+                if multiple != (expected_n > 1) or (not multiple and (one is None) != (expected_n == 0)):
+                    ctx.violation(NULL_ROW_MECH if null_entity_rows else mechanism_of("one_or_none-differs", feats),
+                                  f"one_or_none() -> {'MultipleResultsFound' if multiple else ('None' if one is None else 'a row')} "
+                                  f"but the query returns {expected_n} rows", witness)
+        except StopIteration:
+            pass
+        except Exception as e:
+            ctx.violation(mechanism_of(f"first-one-raises-{type(e).__name__}", feats),
+                          f"first()/one_or_none() raised {type(e).__name__}: {str(e)[:200]}", dict(witness, error=str(e)[:400]))
         if len(ctx.samples) < 3 and nontrivial:
             ctx.sample({"desc": d, "reference_sql": sql, "rows": len(ref)})
 
